@@ -92,7 +92,7 @@ COLUMN_KINDS = {
     'operation_policy_name': ('lazyopt', 'str'),
     '_owner': ('lazyopt', 'str'),
     'sensitive': 'bool',
-    'initial_date': 'nat',
+    'initial_date': 'date',
     'state': ('enum', 'kmip.core.enums.State'),
     'cryptographic_usage_masks': ('sdict', 'bool'),
     'names': ('slist', 'str'),
@@ -101,7 +101,7 @@ COLUMN_KINDS = {
     'app_specific_info': ('slist', 'opaque'),
     'name_index': 'nat',
     'cryptographic_algorithm': ('lazyopt', ('enum', 'kmip.core.enums.CryptographicAlgorithm')),
-    'cryptographic_length': ('lazyopt', 'nat'),
+    'cryptographic_length': ('lazyopt', 'int32nat'),
     'key_format_type': ('enum', 'kmip.core.enums.KeyFormatType'),
     'certificate_type': ('enum', 'kmip.core.enums.CertificateType'),
     'data_type': ('enum', 'kmip.core.enums.SecretDataType'),
@@ -353,6 +353,24 @@ class Lock(object):
     def __exit__(I, args, kw):
         I.path.event('lock.exit')
         return False
+
+    @model
+    def acquire(I, args, kw):
+        """acquire(blocking=True, timeout=-1): with blocking=False or a timeout the call may return
+        False without the lock being held."""
+        blocking = args[1] if len(args) > 1 else kw.get('blocking', True)
+        timeout = args[2] if len(args) > 2 else kw.get('timeout', -1)
+        may_fail = not (blocking is True and (timeout is None or (isinstance(timeout, (int, float))
+                                                                  and not isinstance(timeout, bool) and timeout < 0)))
+        if may_fail and I.path.choose(2, "lock.acquire") == 1:
+            return False
+        I.path.event('lock.enter')
+        return True
+
+    @model
+    def release(I, args, kw):
+        I.path.event('lock.exit')
+        return None
 
 
 class SessionFactory(object):
